@@ -221,6 +221,17 @@ def gen_args(rng, qual, tier):
             out.append((" ".join(rng.choice(w) for _ in range(k)),))
         out += [(" " + " ".join(["zoo"] * 12),), (" ".join(["zoo"] * 12) + "\n",), ("  ".join(["zoo"] * 12),), ("\t".join(["zoo"] * 12),),
                 (" ".join(["zoo"] * 11) + "\x1f",), (" ".join(["zoo"] * 11) + " \x1c",), (" ".join(["zoö"] * 12),), ("",), (" ",)]
+    elif qual == "bip39.mnemonic_from_entropy":
+        hs = []
+        for L in (16, 20, 24, 28, 32):
+            hs += [rb(L).hex(), ("00" * L), ("ff" * L), rb(L).hex().upper(), "00" + rb(L - 1).hex(), " " + rb(L).hex() + "\n",
+                   " ".join(rb(L).hex()[i:i + 2] for i in range(0, 2 * L, 2))]
+        for L in (0, 1, 15, 17, 31, 33, 64):
+            hs.append(rb(L).hex())
+        hs += ["ab" * 15 + "  ", "a", "abc", "zz" * 16, "a b" + "00" * 15, "0x" + "00" * 16, "é" * 32, "ab" * 16 + "\x1f", "ab" * 16 + "\x0b"]
+        out += [(h,) for h in hs]
+    elif qual in ("bip39.checksum_length", "bip39.mnemonic_sentence_length", "bip39.correct_entropy_bits_value"):
+        out += [(v,) for v in (128, 160, 192, 224, 256, 0, 1, 31, 32, 33, 64, 127, 129, 512, 2 ** 20)]
     elif qual == "wallet_utils.Bip32Path.is_hardened":
         out += [(v,) for v in (0, 1, 2 ** 31 - 1, 2 ** 31, 2 ** 31 + 1, 2 ** 32, -1, -2 ** 31)]
     elif qual == "wallet_utils.Bip32Path.is_private":
